@@ -65,7 +65,7 @@ func runC02(c *core.Ctx, o Options) {
 	c.Explanation += " R4 also requires that nothing stores into the slice of pieces between the split and the per-entry decode (an entry shortened or replaced on the way silently loses the fields behind the cut)."
 	c.Explanation += " R1 also covers Set of every value type (a Set that keeps the source text of an earlier parse re-emits the old value)."
 	c.Explanation += " R4 converse: the declared count of a group takes part in no comparison other than with the number of pieces found (and the loop bound)."
-	c.RuleMin = map[string]int{"R1": 28, "R2": 1, "R3": 4, "R4": 2, "R5": 2, "R6": 1, "R7": 3, "R8": 8}
+	c.RuleMin = map[string]int{"R1": 28, "R2": 1, "R3": 5, "R4": 2, "R5": 2, "R6": 1, "R7": 3, "R8": 8}
 	c.MinObl = 30
 }
 
@@ -102,10 +102,35 @@ func decoderRules(c *core.Ctx) {
 		c.Check(seen["KeyValue"] && seen["Group"] && seen["Component"] && okDefault, "R3", "state.unmarshal", "handles KeyValue, Group and Component; anything else is an error", um.Pos(), fmt.Sprint(seen), fmt.Sprintf("cases %v, default returns an error: %v", seen, okDefault))
 		var skCall *ssa.Call
 		an.AllInstrs(um, func(in ssa.Instruction) {
-			if call, ok := in.(*ssa.Call); ok && an.StaticCallee(&call.Call) == sk {
-				skCall = call
+			// the call of the KeyValue case: the one that is given the switched element (the group case may scan its count
+			// field with a direct call of its own)
+			if call, ok := in.(*ssa.Call); ok && an.StaticCallee(&call.Call) == sk && len(call.Call.Args) == 3 {
+				if skCall == nil || an.Render(call.Call.Args[2]) == "fixItem.(*fix.KeyValue)#0" {
+					skCall = call
+				}
 			}
 		})
+		// every lookup inside the decoder works on the data of its own scope: a group's count field (or anything else) looked up in
+		// the scanner's whole input finds the count of an earlier group with the same tag
+		{
+			whole := ""
+			for _, f := range append([]*ssa.Function{um}, pkgHelpersOf(um)...) {
+				an.AllInstrs(f, func(in ssa.Instruction) {
+					call, ok := in.(*ssa.Call)
+					if !ok {
+						return
+					}
+					cal := an.StaticCallee(&call.Call)
+					if (cal != sk && cal != um) || len(call.Call.Args) < 2 {
+						return
+					}
+					if fld, base := an.LoadedField(call.Call.Args[1]); fld != nil && base != nil && an.FieldName(fld) == "data" {
+						whole = an.Render(call) + " in " + an.NameOf(f)
+					}
+				})
+			}
+			c.Check(whole == "", "R3", "state.unmarshal", "nested lookups work on the data of their own scope, not on the scanner's whole input", um.Pos(), "data argument is the scope's own slice", whole+": a field of a nested scope is looked up in the whole message, so the first occurrence anywhere in the message is taken")
+		}
 		c.Check(skCall != nil && an.Render(skCall.Call.Args[1]) == "data" && an.Render(skCall.Call.Args[2]) == "fixItem.(*fix.KeyValue)#0", "R3", "state.unmarshal", "a KeyValue is scanned in the data it was given", um.Pos(), "scanKeyValue(data, el)", "the KeyValue case does not scan its own data for its own element")
 	}
 	// ---- R4 per-entry loop (in the group case itself, or in a helper of the package that is handed the group and the pieces)
